@@ -20,6 +20,7 @@ const (
 	lvCell lvKind = iota // a named cell (local alloc, global)
 	lvHeap               // H:key[ref]
 	lvElem               // E:key[arr][idx]
+	lvPure               // a specification-local variable (Go-side cell, never in the SMT state)
 )
 
 type pathEl struct {
@@ -36,6 +37,7 @@ type LVal struct {
 	rootT types.Type
 	path  []pathEl
 	typ   types.Type
+	pure  *string
 }
 
 type Val struct {
@@ -215,6 +217,9 @@ func (u *Unit) lvRootSort(lv *LVal) string {
 }
 
 func (u *Unit) readRoot(st *State, lv *LVal) string {
+	if lv.kind == lvPure {
+		return *lv.pure
+	}
 	h := u.heapGet(st, lv.name, u.lvRootSort(lv))
 	switch lv.kind {
 	case lvCell:
@@ -252,6 +257,10 @@ func (u *Unit) updPath(cur string, path []pathEl, v string) string {
 }
 
 func (u *Unit) write(st *State, lv *LVal, v string) {
+	if lv.kind == lvPure {
+		*lv.pure = u.updPath(*lv.pure, lv.path, v)
+		return
+	}
 	rs := u.lvRootSort(lv)
 	h := u.heapGet(st, lv.name, rs)
 	var cur string
